@@ -304,12 +304,15 @@ end Uslp
 
 /-! ## stage-2 kinds: EOF, Finished, Metadata (argument formats of `Ops.DirectiveVar`) -/
 
-/-- `{"fill": item, "n": k}` stands for a list of `k` copies of `item` -/
+/-- `{"fill": item, "n": k, "then": [...]}` stands for `k` copies of `item` followed by the optional tail -/
 def expandFill (v : Json) : R Json :=
   match v.getObjVal? "fill" with
   | .ok item => do
     let n ← getNat v "n"
-    pure (Json.arr (List.replicate n item).toArray)
+    let tail : List Json := match v.getObjVal? "then" with
+      | .ok t => (match t.getArr? with | .ok a => a.toList | .error _ => [])
+      | .error _ => []
+    pure (Json.arr (List.replicate n item ++ tail).toArray)
   | .error _ => pure v
 
 def pyTrue (r : Py Bool) : Bool :=
